@@ -48,9 +48,14 @@ func (f *Factory) createBaseIterator(
 	// Create individual iterators in newest-to-oldest order
 	iterators := make([]iterator.Iterator, 0, len(memTables)+len(ssTables))
 
-	// Add memtable iterators (newest to oldest)
-	for _, mt := range memTables {
-		iterators = append(iterators, memtable.NewIteratorAdapter(mt.NewIterator()))
+	// Add memtable iterators (newest to oldest). memTables is ordered as returned
+	// by MemTablePool.GetMemTables: the active table first, followed by the
+	// immutable tables from oldest to newest, so walk the immutables backwards.
+	if len(memTables) > 0 {
+		iterators = append(iterators, memtable.NewIteratorAdapter(memTables[0].NewIterator()))
+	}
+	for i := len(memTables) - 1; i >= 1; i-- {
+		iterators = append(iterators, memtable.NewIteratorAdapter(memTables[i].NewIterator()))
 	}
 
 	// Add sstable iterators (newest to oldest)
